@@ -643,6 +643,23 @@ def link_layer_data_tx_wiring(c):
     lemmas_packets_reach_the_phy(c, U)
 
 
+def open_superspeed_device(c, endpoints, extra_ports=None):
+    """The real USBSuperSpeedDevice on an open PIPEInterface (a bundle of signals: no PHY model, no vendor primitive) with the given
+    endpoint objects added; every PIPE signal, every public signal of the device and `extra_ports` are ports (free inputs unless
+    the design drives them).  Returns (device, pipe, ts)."""
+    from luna.gateware.interface.pipe import PIPEInterface
+    from luna.gateware.usb.usb3.device import USBSuperSpeedDevice
+    pipe = PIPEInterface(width=4)
+    d = USBSuperSpeedDevice(phy=pipe, sync_frequency=50e6)
+    for e in endpoints:
+        d.add_endpoint(e)
+    ports = {(k + "_pin" if k.endswith(("_clk", "_rst")) else k): v for k, v in signals_of(pipe, "pipe_").items()}   # (not clock domains)
+    ports.update(signals_of(d, "dev_"))
+    ports.update(extra_ports or {})
+    ts = c.unit(d, ports)
+    return d, pipe, ts
+
+
 def device_wiring(c):
     """USBSuperSpeedDevice.elaborate() with two real SuperSpeedStreamInEndpoints (endpoints 1 and 2) added: the real endpoints sit
     behind the real multiplexer, protocol layer and link layer.  End-to-end call obligations from each endpoint's interface to the
@@ -654,16 +671,8 @@ def device_wiring(c):
     from luna.gateware.usb.usb3.protocol.transaction import TransactionPacketGenerator, TransactionPacketReceiver
     from luna.gateware.usb.usb3.link.layer import USB3LinkLayer
     from luna.gateware.usb.usb3.link.data import DataPacketTransmitter
-    pipe = PIPEInterface(width=4)
-    d = USBSuperSpeedDevice(phy=pipe, sync_frequency=50e6)
     eps = [SuperSpeedStreamInEndpoint(endpoint_number=1, max_packet_size=16), SuperSpeedStreamInEndpoint(endpoint_number=2, max_packet_size=64)]
-    for e in eps:
-        d.add_endpoint(e)
-    ports = {(k + "_pin" if k.endswith(("_clk", "_rst")) else k): v for k, v in signals_of(pipe, "pipe_").items()}   # (not clock domains)
-    ports.update(signals_of(d, "dev_"))
-    for k, e in enumerate(eps):
-        ports.update(signals_of(e.stream, f"ep{k + 1}_stream_"))
-    ts = c.unit(d, ports)
+    d, pipe, ts = open_superspeed_device(c, eps, {k: v for n, e in enumerate(eps) for k, v in signals_of(e.stream, f"ep{n + 1}_stream_").items()})
     of = ts.of
     S = lambda a, b: same(ts, a, b)
     mux, proto, link = ts.instance(SuperSpeedEndpointMultiplexer), ts.instance(USB3ProtocolLayer), ts.instance(USB3LinkLayer)
